@@ -92,7 +92,7 @@ func H_Expand() {
 	}
 	ctx := &hcl.EvalContext{Variables: map[string]cty.Value{"l": l, "t": tup, "m": m, "o": cty.ObjectVal(mvals), "z": cty.StringVal("zz")}}
 
-	which := pick(9)
+	which := pick(11)
 	vf.Observe("template", which)
 	vf.Observe("n", n)
 	var dyn, static string
@@ -152,6 +152,20 @@ func H_Expand() {
 		for i := 0; i < n; i++ {
 			static += "blk {\n  x = \"2${m." + keys[i] + "}\"\n}\n"
 		}
+	case 9: // the iterator is named like the global variable that its own for_each refers to
+		dyn = "dynamic \"blk\" {\n  for_each = l\n  iterator = l\n  content {\n    x = l.value\n    k = l.key\n  }\n}\n"
+		for i := 0; i < n; i++ {
+			static += "blk {\n  x = l[" + idx(i) + "]\n  k = " + idx(i) + "\n}\n"
+		}
+	case 10: // the same, nested and inside a for expression; the outer iterator is used by the inner for_each
+		dyn = "dynamic \"blk\" {\n  for_each = l\n  content {\n    x = blk.value\n    dynamic \"inner\" {\n      for_each = [for v in m : \"${v}${blk.key}\"]\n      iterator = m\n      content {\n        y = m.value\n      }\n    }\n  }\n}\n"
+		for i := 0; i < n; i++ {
+			static += "blk {\n  x = l[" + idx(i) + "]\n"
+			for j := 0; j < n; j++ {
+				static += "  inner {\n    y = \"${m." + keys[j] + "}" + idx(i) + "\"\n  }\n"
+			}
+			static += "}\n"
+		}
 	}
 	if which == 8 { // nested dynamics that use the SAME iterator name: the inner one shadows the outer
 		dyn = "dynamic \"blk\" {\n  for_each = l\n  iterator = it\n  content {\n    x = it.value\n    dynamic \"inner\" {\n      for_each = m\n      iterator = it\n      content {\n        y = \"${it.key}${it.value}\"\n      }\n    }\n  }\n}\n"
@@ -182,6 +196,18 @@ func H_Expand() {
 	_, _, d1 := dynblock.Expand(dbody, small).PartialContent(&hcl.BodySchema{Blocks: []hcl.BlockHeaderSchema{{Type: "blk"}}})
 	_, _, d2 := dynblock.Expand(dbody, ctx).PartialContent(&hcl.BodySchema{Blocks: []hcl.BlockHeaderSchema{{Type: "blk"}}})
 	vf.Assert(d1.HasErrors() == d2.HasErrors(), "expansion-variables-suffice: template "+strconv.Itoa(which))
+	// ... and, together with the variables reported for the content, to decode at every depth
+	for _, tr := range dynblock.VariablesHCLDec(dbody, specs()[0]) {
+		need[tr.RootName()] = true
+	}
+	for k, v := range ctx.Variables {
+		if need[k] {
+			small.Variables[k] = v
+		}
+	}
+	v3, d3 := hcldec.Decode(dynblock.Expand(dbody, small), specs()[0], small)
+	v4, d4 := hcldec.Decode(dynblock.Expand(dbody, ctx), specs()[0], ctx)
+	vf.Assert(d3.HasErrors() == d4.HasErrors() && (d3.HasErrors() || v3.RawEquals(v4)), "reported-variables-suffice-at-every-depth: template "+strconv.Itoa(which))
 }
 
 // H_Labels: labels computed from the iterator, with symbolic contents (collisions included).
